@@ -353,26 +353,6 @@ mod h {
         std::mem::forget(s);
     }
 
-    /// p_ig = rho R T over ALL finite positive T, V, N (symbolic f64), NoResidual model
-    #[kani::proof]
-    #[kani::stub(std::hash::RandomState::new, fixed_random_state)]
-    #[kani::unwind(6)]
-    fn c10_ideal_pressure_all_inputs() {
-        use quantity::RGAS;
-        let eos = Arc::new(feos_core::NoResidual(1));
-        let (t, v, n): (f64, f64, f64) = (kani::any(), kani::any(), kani::any());
-        let r = State::new_nvt(&eos, Temperature::from_reduced(t), Volume::from_reduced(v), &Moles::from_reduced(arr1(&[n])));
-        if let Ok(s) = &r {
-            let ig = s.pressure(Contributions::IdealGas);
-            let want = s.density * RGAS * s.temperature;
-            assert!(same(ig.to_reduced(), want.to_reduced()));
-            let res = s.pressure(Contributions::Residual);
-            assert!(res.to_reduced() == 0.0);
-            kani::cover!(true);
-        }
-        std::mem::forget(r);
-    }
-
     // ------------------------------------------------------------------------------------------
     // C11 (getter level): g after h, and g on a clone taken before/after h, equals g on a fresh state
     // ------------------------------------------------------------------------------------------
